@@ -296,6 +296,11 @@ class Export(object):
                         lengths.append(len(ds["trace"][tr]))
                 else:
                     lengths.append(len(ds[feat]))
+            if filter_arr is not None:
+                # The filter refers to all events of the dataset. It must
+                # also be limited if all of the exported features are
+                # shorter than the dataset.
+                lengths.append(len(filter_arr))
             l_min = np.min(lengths)
             l_max = np.max(lengths)
             if l_min != l_max:
